@@ -252,6 +252,8 @@ def run(ctx, rep, model=True):
                                    scale=[None, None, "centred", None, "far", "centred", "tiny"][i % 7])
         if i % 5 == 3: spec["path_form"] = "symlink"
         if i % 5 == 1: spec["level_symlink"] = True
+        if i % 7 == 5 and not spec.get("level_symlink"):
+            spec["level_dir"] = ["Lev_{lv}", "Level_{lv:02d}"][(i // 7) % 2]; rep.count("level-directories-not-named-Level_n")
         if i % 5 == 2: spec["path_sub"] = [["case[3]", "run*x", "a?b"][(i // 5) % 3], "plt00010"]
         if i % 4 == 1 and len(spec["fields"]) == 3:
             # a repeated name next to the name its repetition would be given (avg, avg_2, avg -> avg, avg_2, avg_3)
